@@ -29,7 +29,7 @@ ASSUMPTIONS = ["clusters are never locked (the statement's exception)",
                "a held clone is queried only while the function it was cloned from is still the current binding"]
 COMPONENTS = {"real": ["twosigma.memento version computation, hash rules, generation counter, version cache", "CPython exec/compile/linecache"],
               "stub": ["generated user program", "uuid4, clock"]}
-REACH = ["events:define_builtin", "queries", "query_points", "via:unregistered", "via:clone", "via:held-clone", "events:redefine", "events:mutate",
+REACH = ["programs_with_mutual_recursion", "events:define_builtin", "queries", "query_points", "via:unregistered", "via:clone", "via:held-clone", "events:redefine", "events:mutate",
          "events:rebind", "events:swap_kind", "queried_with_undefined_callee"]
 
 QVIAS = ["attr", "attr", "qn", "clone:ignore_result", "clone:force_local", "clone:partial", "clone:context", "unregistered"]
@@ -271,6 +271,8 @@ def execute(case):
     def bump(k, n=1):
         stats[k] = stats.get(k, 0) + n
     try:
+        if any(c.get("back") for ev in case["events"] if ev.get("prog") for n in ev["prog"]["nodes"] for c in n["calls"]):
+            bump("programs_with_mutual_recursion")
         ev_a, _ = life_a(case)
         answers = {e["i"]: e["answers"] for e in ev_a if "answers" in e}
         for e in ev_a:
@@ -308,7 +310,10 @@ def execute(case):
                 bump("queried_with_undefined_callee")
             for k in sorted(b_min):
                 if isinstance(b_min[k], dict) or isinstance(b_full.get(k), dict):
-                    raise core.HarnessError("reference lifetime failed to compute a version: %r %r" % (b_min[k], b_full.get(k)))
+                    bad = b_min[k] if isinstance(b_min[k], dict) else b_full.get(k)
+                    viol.append(core.violation("version-query-raised", {"via": "fresh-process", "exc": bad["exc"]},
+                                               {"i": i, "node": k, "exc": bad}))
+                    break
                 if b_full.get(k) != b_min[k]:
                     viol.append(core.violation("version-depends-on-history", {}, {"i": i, "node": k, "full": b_full.get(k), "min": b_min[k]}))
                     break
